@@ -118,13 +118,15 @@ Proof.
     intros v1. rewrite !in_dvers. unfold pipe; sproj.
     intros [H|[[y [Hy Hv]]|[H|[H|H]]]]; auto.
     right; left. exists y. split; auto. rewrite Hkq. rewrite <- app_assoc in Hy. exact Hy.
-  - destruct (if bug_rr c then Some (0, 0, 0) else idx_get (kidx s)).
-    + apply Hentry; auto.
-    + eapply vinv_sub; [exact HV| |reflexivity..|auto].
+  - assert (Hdrop : VInv (set_q s q)).
+    { eapply vinv_sub; [exact HV| |reflexivity..|auto].
       intros v1. rewrite !in_dvers. unfold pipe; sproj.
       intros [H|[[y [Hy Hv]]|[H|[H|H]]]]; auto.
       right; left. exists y. split; auto. rewrite Hkq. apply in_app_or in Hy. apply in_or_app.
-      destruct Hy; [left|right; right]; auto.
+      destruct Hy; [left|right; right]; auto. }
+    destruct (if bug_rr c then Some (sq, 0, 0) else idx_get (kidx s)) as [[[sq1 v1] b1]|]; [|exact Hdrop].
+    destruct (sq1 =? sq); [|exact Hdrop].
+    apply Hentry; auto.
 Qed.
 
 Lemma reclaim_copies_vers c b copies : forall q idx,
@@ -457,7 +459,7 @@ Proof.
     + intros tc tsq Ht sq0 Hin. apply in_app_or in Hin. destruct Hin as [Hin|[Hin|[]]]; eauto. subst.
       destruct (iB1 s HI _ _ Ht _ _ Hc) as [Hle Hcn]. split; auto. intros E. subst.
       symmetry. apply Hcn. exact (proj2 (iA2 s HI _ _ Ht)).
-  - rewrite Hrr. destruct (idx_get (kidx s)); tframe HT.
+  - rewrite Hrr. destruct (idx_get (kidx s)) as [[[sq1 v1] b1]|]; [destruct (sq1 =? _)|]; tframe HT.
 Qed.
 
 Lemma tinv_complete s : TInv s -> TInv (do_complete s).
